@@ -8,7 +8,8 @@ over.  `reach_stable`: a finished node that was not reachable from `a` does not 
 loop invariant — every tracked node (uid `≥ c`) reachable from `a` is evaluable and fed from the apply side only, and
 tracked nodes subscribe to tracked nodes or to the given older publishers (uid `< b`).  `iter_reach`: one round
 (expand a scope / base model, copy its apply segment, bind the three heads and the head of the copy): the new nodes
-reachable from `a` are exactly the apply region of the expansion.
+reachable from `a` are exactly the apply region of the expansion (this is where its `reg`/`sep`/`closed` certificate is
+consumed).
 -/
 import ForML.Lemmas.C03Region
 
